@@ -20,7 +20,7 @@ func init() {
 		Level: "exploration",
 		Rule: "E-twin with an ideal recursive shadow: the driver knows the tree, so the shadow holds a raw watch on every directory of every recursive root keyed by its TRUE current path (renames update it by path component), " +
 			"adds a new directory right after its mkdir returned and its Create was delivered (barrier), ignores IN_MOVE_SELF. Trees whose siblings share string prefixes (dir1/dir10, sub/sub2, a/ab/abc) at several depths, 2-3 recursive roots of which one is removed mid-history; " +
-			"mkdir one level at a time, renames of inner directories within the tree (also onto names that are prefixes of siblings, onto an existing empty directory, and re-creating a directory under a renamed directory's old name), file create/write/chmod/rename/unlink at every depth, rmdir. " +
+			"mkdir one level at a time, renames of inner directories within the tree (also onto names that are prefixes of siblings, onto an existing empty directory, and re-creating a directory under a renamed directory's old name), file create/write/chmod/rename/unlink at every depth, rmdir; an inner directory renamed twice before anything of the first rename is delivered; in half of the histories an ordinary watch on a file inside the tree (its name follows renames above it; its own rename ends it under the old name). " +
 			"Expected vs received as in C01-C03/C08; after Remove(root) nothing from that tree and everything from the others. distinct_nontrivial = distinct histories with >=1 inner-directory rename or root removal and >=1 compared event",
 		Assumptions: []string{"WatchList() of a recursive watch is unspecified and not compared", "mkdir -p bursts and moves across the root are documented limitations and are not generated", "kernel shadow = ground truth"},
 		Batches:     func(t string) int { return map[string]int{"quick": 12, "thorough": 48}[t] },
@@ -101,6 +101,26 @@ func c19Case(c *core.Ctx, rng *rand.Rand, dir string, idx int) {
 			return
 		}
 	}
+	// an ordinary watch on a file INSIDE a recursive tree (the two kinds of watch share the tables): its
+	// name must follow renames of the directories above it, and its own rename ends it under its old name
+	plainFile := ""
+	if rng.Intn(2) == 0 {
+		d := dl[rng.Intn(len(dl))]
+		plainFile = filepath.Join(d, "wf")
+		s.Creat(plainFile)
+		if err := s.W.Add(plainFile); err != nil {
+			c.Broken(fmt.Sprintf("Add(%s): %v", plainFile, err))
+			return
+		}
+		s.Logf("Add(%q)", plainFile)
+		if err := s.Sh.AddAs(plainFile, plainFile); err != nil {
+			c.Broken("shadow: " + err.Error())
+			return
+		}
+		s.Sh.W[s.Sh.ByPath[plainFile]].Plain = true
+		c.Count("histories_with_a_plain_file_watch_inside_the_tree", 1)
+	}
+	tolerateENOENT := false
 	s.Sync(&rep, false)
 	watched := func() []string { // directories of live roots
 		var l []string
@@ -122,7 +142,7 @@ func c19Case(c *core.Ctx, rng *rand.Rand, dir string, idx int) {
 		sort.Strings(l)
 		return l
 	}
-	names := []string{"f", "g", "sub", "sub2", "a", "ab", "abc", "s", "su", "dir1", "x"}
+	names := []string{"f", "g", "sub", "sub2", "a", "ab", "abc", "s", "su", "dir1", "x", "wf", "wf"}
 	renames, removals, mkdirs := 0, 0, 0
 	steps := c.Pick(60, 160)
 	removedOne := false
@@ -247,6 +267,9 @@ func c19Case(c *core.Ctx, rng *rand.Rand, dir string, idx int) {
 			}
 			_, ontoExisting := os.Lstat(to)
 			mark := len(s.Want)
+			if rng.Intn(2) == 0 {
+				s.Pause(true) // nothing is delivered until the next barrier
+			}
 			if s.Rename(from, to) != nil {
 				break
 			}
@@ -265,18 +288,35 @@ func c19Case(c *core.Ctx, rng *rand.Rand, dir string, idx int) {
 				s.Want = kept
 			}
 			// move the tree in the driver's and the shadow's books, by path component
-			delete(dirs, to) // a replaced directory is gone (its watch ended with IN_DELETE_SELF)
-			for x := range dirs {
-				if under(x, from) {
-					delete(dirs, x)
-					dirs[to+x[len(from):]] = true
+			moveBooks := func(from, to string) {
+				delete(dirs, to) // a replaced directory is gone (its watch ended with IN_DELETE_SELF)
+				moved := map[string]bool{}
+				for x := range dirs {
+					if under(x, from) {
+						delete(dirs, x)
+						moved[to+x[len(from):]] = true
+					}
+				}
+				for x := range moved {
+					dirs[x] = true
+				}
+				for wd, sw := range s.Sh.W {
+					if under(sw.Path, from) {
+						delete(s.Sh.ByPath, sw.Path)
+						sw.Path = to + sw.Path[len(from):]
+						s.Sh.ByPath[sw.Path] = wd
+					}
 				}
 			}
-			for wd, sw := range s.Sh.W {
-				if under(sw.Path, from) {
-					delete(s.Sh.ByPath, sw.Path)
-					sw.Path = to + sw.Path[len(from):]
-					s.Sh.ByPath[sw.Path] = wd
+			moveBooks(from, to)
+			if ontoExisting != nil && rng.Intn(3) == 0 {
+				// and once more before anything of the first rename has been delivered: the directory the
+				// reader is about to register under its intermediate name is already somewhere else
+				to2 := to + "-again"
+				if _, e := os.Lstat(to2); e != nil && s.Rename(to, to2) == nil {
+					moveBooks(to, to2)
+					tolerateENOENT = true
+					c.Count("double_renames_before_delivery", 1)
 				}
 			}
 			if live[root] {
@@ -390,6 +430,11 @@ func c19Case(c *core.Ctx, rng *rand.Rand, dir string, idx int) {
 		c.Violate(sig, fmt.Sprintf("recursive watch (roots %v, live %v): %s; history tail %v", roots, keys(live), d.Diff, d.Log), d)
 	}
 	for _, e := range rep.Errors {
+		if tolerateENOENT && strings.Contains(e, "no such file or directory") {
+			// registering a directory under a name it no longer has fails; coverage is what is judged
+			c.Count("registration_errors_after_a_double_rename", 1)
+			continue
+		}
 		c.Violate("recursive-error:"+pathRe.ReplaceAllString(e, "<path>"), fmt.Sprintf("recursive history put %q on Errors; tail %v", e, s.Tail(12)), s.Tail(40))
 	}
 	if rep.Hang != "" {
